@@ -60,6 +60,9 @@ struct Frame {
     /// where the parent wants the output (CALL family)
     out_off: usize,
     out_len: usize,
+    /// the code was reached through an EIP-7702 designator (trace bookkeeping only: the real
+    /// interpreter builds a frame for such a call even when the delegate's code is empty)
+    via_delegation: bool,
 }
 
 enum Step {
@@ -69,7 +72,21 @@ enum Step {
     Spawn(Box<Frame>),
 }
 
+/// one record per dispatched instruction (lock-step comparison with the real interpreter)
+#[derive(Clone, Debug, PartialEq)]
+pub struct TraceRec {
+    pub depth: u32,
+    pub pc: u64,
+    pub op: u8,
+    pub gas: u64,
+    pub stack_len: u32,
+    pub top: U256,
+    pub mem_len: u64,
+}
+pub const TRACE_CAP: usize = 40_000;
+
 pub struct RefResult {
+    pub trace: Vec<TraceRec>,
     pub op_hist: Vec<u32>,
     /// a balance would have exceeded 2^256-1: the case is outside the specification's domain
     pub out_of_domain: bool,
@@ -155,6 +172,7 @@ pub struct Machine<'a> {
     pub steps: u64,
     pub overflowed: bool,
     pub op_hist: Vec<u32>,
+    pub trace: Vec<TraceRec>,
 }
 
 impl<'a> Machine<'a> {
@@ -286,6 +304,11 @@ impl<'a> Machine<'a> {
     // ---------------------------------------------------------------------------------------
     fn step(&mut self, f: &mut Frame) -> Result<Step, Halt> {
         self.steps += 1;
+        // the real interpreter builds no frame for a message call into empty code; everywhere else
+        // running off the end of the code is an executed STOP
+        if self.trace.len() < TRACE_CAP && !(f.code.is_empty() && f.kind == FrameKind::Call && !f.via_delegation) {
+            self.trace.push(TraceRec { depth: f.depth as u32, pc: f.pc as u64, op: f.code.get(f.pc).copied().unwrap_or(0), gas: f.gas, stack_len: f.stack.len() as u32, top: f.stack.last().copied().unwrap_or_default(), mem_len: f.mem.len() as u64 });
+        }
         if f.pc >= f.code.len() {
             return Ok(Step::Done { ok: true, revert: false, output: vec![] });
         }
@@ -912,7 +935,7 @@ impl<'a> Machine<'a> {
         self.touch(address);
         let is_pre = self.is_precompile(&code_addr) && code_addr == to;
         let jd = jumpdests(&code);
-        let mut child = Frame { kind: FrameKind::Call, code, jumpdests: jd, pc: 0, stack: vec![], mem: vec![], gas: child_gas, address, caller, value: cvalue, input, is_static, returndata: vec![], depth: f.depth + 1, snapshot: Some(snapshot), out_off: oo, out_len: ol };
+        let mut child = Frame { kind: FrameKind::Call, code, jumpdests: jd, pc: 0, stack: vec![], mem: vec![], gas: child_gas, address, caller, value: cvalue, input, is_static, returndata: vec![], depth: f.depth + 1, snapshot: Some(snapshot), out_off: oo, out_len: ol, via_delegation: code_addr != to };
         if is_pre {
             // run the precompile right here as a one-step frame: encode by empty code + marker
             child.code = vec![];
@@ -1008,7 +1031,7 @@ impl<'a> Machine<'a> {
         }
         self.touch(addr);
         let jd = jumpdests(&init);
-        Some(Box::new(Frame { kind: FrameKind::Create(addr), code: init, jumpdests: jd, pc: 0, stack: vec![], mem: vec![], gas, address: addr, caller: sender, value, input: vec![], is_static: false, returndata: vec![], depth, snapshot: Some(snapshot), out_off: 0, out_len: 0 }))
+        Some(Box::new(Frame { kind: FrameKind::Create(addr), code: init, jumpdests: jd, pc: 0, stack: vec![], mem: vec![], gas, address: addr, caller: sender, value, input: vec![], is_static: false, returndata: vec![], depth, snapshot: Some(snapshot), out_off: 0, out_len: 0, via_delegation: false }))
     }
 
     /// finish a create frame that returned `code`; returns (ok, gas_left)
@@ -1280,7 +1303,7 @@ pub fn validate(world: &World, spec: SpecId, block: &BlockSpec, tx: &TxSpec) -> 
 /// Execute one transaction on `world` (mutated to the post-state when accepted).
 pub fn ref_transact(world: &mut World, spec: SpecId, block: &BlockSpec, tx: &TxSpec) -> RefResult {
     if let Some(r) = validate(world, spec, block, tx) {
-        return RefResult { op_hist: vec![], out_of_domain: false, outcome: TxOutcome::Rejected(r.to_string()), post: world.clone(), steps: 0 };
+        return RefResult { trace: vec![], op_hist: vec![], out_of_domain: false, outcome: TxOutcome::Rejected(r.to_string()), post: world.clone(), steps: 0 };
     }
     let is = |s: SpecId| spec >= s;
     let base = U256::from(block.basefee);
@@ -1289,7 +1312,7 @@ pub fn ref_transact(world: &mut World, spec: SpecId, block: &BlockSpec, tx: &TxS
         None => tx.gas_price,
     };
     let st = St { world: world.clone(), accessed_addrs: BTreeSet::new(), accessed_slots: BTreeSet::new(), transient: BTreeMap::new(), logs: vec![], refund: 0, touched: BTreeSet::new(), selfdestructs: BTreeSet::new(), created: BTreeSet::new() };
-    let mut m = Machine { spec, block, tx, st, originals: BTreeMap::new(), pre_world: world.clone(), eff_price, steps: 0, overflowed: false, op_hist: vec![0; 256] };
+    let mut m = Machine { spec, block, tx, st, originals: BTreeMap::new(), pre_world: world.clone(), eff_price, steps: 0, overflowed: false, op_hist: vec![0; 256], trace: vec![] };
     let (intrinsic, floor) = crate::props::online::intrinsic_gas(spec, tx);
     let sender = tx.caller;
     let sender_nonce = m.acct(&sender).map(|a| a.nonce).unwrap_or(0);
@@ -1370,8 +1393,10 @@ pub fn ref_transact(world: &mut World, spec: SpecId, block: &BlockSpec, tx: &TxS
             }
             let mut code = m.code(&to);
             let mut pre = m.is_precompile(&to);
+            let mut delegated = false;
             if is(SpecId::PRAGUE) {
                 if let Some(t) = delegation_target(&code) {
+                    delegated = true;
                     m.st.accessed_addrs.insert(t);
                     code = if m.is_precompile(&t) { vec![] } else { m.code(&t) };
                     pre = false;
@@ -1388,7 +1413,7 @@ pub fn ref_transact(world: &mut World, spec: SpecId, block: &BlockSpec, tx: &TxS
                 }
                 m.touch(to);
                 let jd = jumpdests(&code);
-                let mut fr = Box::new(Frame { kind: FrameKind::Call, code, jumpdests: jd, pc: 0, stack: vec![], mem: vec![], gas, address: to, caller: sender, value: tx.value, input: tx.data.clone(), is_static: false, returndata: vec![], depth: 1, snapshot: Some(snapshot), out_off: 0, out_len: 0 });
+                let mut fr = Box::new(Frame { kind: FrameKind::Call, code, jumpdests: jd, pc: 0, stack: vec![], mem: vec![], gas, address: to, caller: sender, value: tx.value, input: tx.data.clone(), is_static: false, returndata: vec![], depth: 1, snapshot: Some(snapshot), out_off: 0, out_len: 0, via_delegation: delegated });
                 if pre {
                     fr.pc = usize::MAX;
                 }
@@ -1428,6 +1453,7 @@ pub fn ref_transact(world: &mut World, spec: SpecId, block: &BlockSpec, tx: &TxS
     *world = m.st.world.clone();
     let class = if ok { "success" } else if revert { "revert" } else { "halt" };
     RefResult {
+        trace: std::mem::take(&mut m.trace),
         op_hist: m.op_hist.clone(),
         out_of_domain: m.overflowed,
         outcome: TxOutcome::Executed { class, reason: String::new(), gas_used, gas_refunded: if ok { reported_refund } else { 0 }, output: if ok || revert { output } else { vec![] }, logs, created },
